@@ -67,7 +67,7 @@ type gzipReader struct {
 
 // Decompress implements the Compressor interface.
 func (c *CompressorGzip) Decompress(r io.Reader) (io.Reader, error) {
-	z, ok := c.poolDecompressor.Get().(*gzipReader)
+	zr, ok := c.poolDecompressor.Get().(*gzip.Reader)
 	if !ok {
 		newZ, err := gzip.NewReader(r)
 		if err != nil {
@@ -75,17 +75,22 @@ func (c *CompressorGzip) Decompress(r io.Reader) (io.Reader, error) {
 		}
 		return &gzipReader{Reader: newZ, pool: &c.poolDecompressor}, nil
 	}
-	if err := z.Reset(r); err != nil {
-		z.pool.Put(z)
+	if err := zr.Reset(r); err != nil {
+		c.poolDecompressor.Put(zr)
 		return nil, err
 	}
-	return z, nil
+	return &gzipReader{Reader: zr, pool: &c.poolDecompressor}, nil
 }
 
 func (z *gzipReader) Read(p []byte) (n int, err error) {
+	if z.Reader == nil {
+		return 0, io.EOF // already back in the pool
+	}
 	n, err = z.Reader.Read(p)
 	if err == io.EOF {
-		z.pool.Put(z)
+		// Once only: callers may read again after EOF.
+		z.pool.Put(z.Reader)
+		z.Reader = nil
 	}
 	return n, err
 }
